@@ -797,6 +797,12 @@ def explore_profiles(prop, tier, seed, n_quick):
             bad = orc.c09(D, h, ex.tmp) if prop == 'C09' else orc.c10(D, h)
             tp = h.create_tree_profile()
             o.put('tpfull', ob.profileS(tp.treemap))
+            if D.families:
+                # the same numbers against what the HISTORIES say about every branch (Lean: copiesInto / eventsInto, computed
+                # from the histories alone; theorem C09_profile_numbers_are_the_history)
+                for nd_ in tp.treemap.traverse():
+                    if not nd_.is_root():
+                        o.put('hdup', '%s=%s,%s' % (taxS(ob.pathof_rel(nd_)), nd_.dupl, nd_.duplication))
             if prop == 'C09':
                 if k % 5 == 0:
                     # the documented defaults (as_html=True): an outfile alone gives the HTML export of this very profile
@@ -847,7 +853,7 @@ def explore_profiles(prop, tier, seed, n_quick):
             ex.fail(cid, D, bad)
         if D.meta.get('large'):
             ex.res.count('large_datasets'); continue
-        ex.submit(cid, D, o.tags, ['load', 'tpfull', 'tpjson'] if prop == 'C09' else ['load', 'tpfull', 'tphog', 'tphogsub'], emit=['profiles'], queries=subq)
+        ex.submit(cid, D, o.tags, ['load', 'tpfull', 'tpjson', 'hdup'] if prop == 'C09' else ['load', 'tpfull', 'tphog', 'tphogsub', 'hdup'], emit=['profiles'], queries=subq)
     ex.finish()
     ex.close()
     return ex.res
